@@ -96,7 +96,7 @@ def check_C01(ctx):
     if ctx.quick:
         shards, st = gen_steps(ctx, ["-shards", 16, "-M", "5,8", "-reps", 3, "-big", "70001", "-bign", 48])
     else:
-        shards, st = gen_steps(ctx, ["-shards", 64, "-M", "3,5,7,8,11,16,32", "-reps", 6, "-exhaustive", "3,4", "-big", "70001,100003,300007", "-bign", 320])
+        shards, st = gen_steps(ctx, ["-shards", 64, "-M", "3,5,7,8,11,16,32", "-reps", 6, "-exhaustive", "3,4", "-big", "70001,100003", "-bign", 96])      # (TLC needs seconds per step on such cores: 300 007 cells took over an hour for 320 steps)
         s2, st2 = gen_steps(ctx, ["-shards", 8, "-M", "8000", "-reps", 1], name="big")
         # big cores: only a sample of forms (files are large)
         shards += s2
@@ -282,19 +282,37 @@ def replay_insitu(ctx, payload):
 
 
 # ------------------------------------------------------------------ battles (C02, C04, C12, C15)
+def limit_rejects(rejects, n=240):
+    """Confirmation looks at the trace of every rejected line; with tens of thousands of rejections (a change that breaks
+    nearly every history) that would take hours, so a spread sample is confirmed: the first ones and evenly spaced later ones."""
+    if len(rejects) <= n:
+        return rejects
+    step = max(1, (len(rejects) - n // 2) // (n // 2))
+    return rejects[:n // 2] + rejects[n // 2::step][:n // 2]
+
+
+_trace_cache = {}
+
+
 def trace_of(shard, idx):
+    key = (shard, idx)
+    if key not in _trace_cache:
+        _trace_cache[key] = _trace_of(shard, idx)
+    return _trace_cache[key]
+
+
+def _trace_of(shard, idx):
     """the lines of the trace containing 1-based line idx: from its 'new' up to the next 'new'."""
     lines = []
     start = 0
     with open(shard) as f:
         for i, l in enumerate(f, 1):
-            e = json.loads(l)
-            if e["ev"] == "new":
+            if l.startswith('{"ev":"new"'):          # (only the lines of the one trace are parsed)
                 if i > idx:
                     break
                 lines, start = [], i
-            lines.append(e)
-    return lines, idx - start      # 0-based position of the failing event inside the trace
+            lines.append(l)
+    return [json.loads(x) for x in lines], idx - start      # 0-based position of the failing event inside the trace
 
 
 def battle_sig(mode, tr, pos):
@@ -310,6 +328,7 @@ def battle_sig(mode, tr, pos):
 
 
 def reproduce_battles(ctx, mode, rejects, reports=False, cap=25, module="BattleTrace"):
+    rejects = limit_rejects(rejects)
     seen = {}
     for shard, idx in rejects:
         tr, pos = trace_of(shard, idx)
@@ -546,6 +565,7 @@ def api_sig(tr, pos):
 
 
 def reproduce_api(ctx, rejects, cap=25):
+    rejects = limit_rejects(rejects)
     seen = {}
     for shard, idx in rejects:
         tr, pos = trace_of(shard, idx)
@@ -699,6 +719,7 @@ def check_C14(ctx):
 
 
 def reproduce_generic(ctx, label, rejects, cap=10):
+    rejects = limit_rejects(rejects)
     """violations whose replay is the recorded trace itself (alias / job traces are produced by multi-step drivers)."""
     seen = set()
     for shard, idx in rejects:
